@@ -67,10 +67,19 @@ def gen_step(rng, i):
     step = {'i': i, 'assert': a, 'kind': rng.choice(KINDS), 'ref_state': rng.choice(['match', 'match', 'differ', 'missing']),
             'ref': 'ref%d.%s' % (i, {'string': 'txt', 'textfile': 'txt', 'textfiles': 'txt', 'binary': 'bin', 'df_parquet': 'parquet',
                                      'df_csv': 'csv', 'ondisk': 'parquet'}[a])}
+    if a in ('string', 'textfile') and rng.random() < 0.1:
+        step['ref'] = 'ref%d.pdf' % i          # a text reference called *.pdf (tdda reads such files as iso-8859-1)
     if step['ref'].endswith('.parquet') and rng.random() < 0.25:
         step['ref'] = step['ref'][:-len('parquet')] + rng.choice(['PARQUET', 'Parquet'])      # the extension's case does not change the format
     if a in ('string', 'textfile'):
         step['actual'] = gen_text(rng) if rng.random() < 0.5 else rng.choice(TEXTS) + '#%d\n' % rng.randrange(1000)
+        if step['ref'].endswith('.pdf'):
+            step['actual'] = ''.join(ch if ord(ch) < 256 and ch not in '\x85\xa0' else 'é' for ch in step['actual']) + 'café\n'
+        if a == 'textfile' and rng.random() < 0.15:
+            # the ACTUAL file is called *.pdf (the reference is not): both are still read by the reference's rule, UTF-8;
+            # text kept within Latin-1 so that tdda's own temporaries, named after the actual file, can hold it
+            step['actual_name'] = 'report%d.pdf' % i
+            step['actual'] = ''.join(ch if ord(ch) < 256 and ch not in '\x85\xa0' else 'é' for ch in step['actual']) + 'café\n'
     elif a == 'textfiles':
         step['actuals'] = [gen_text(rng), rng.choice(TEXTS) + 'tail\n']
     elif a == 'binary':
@@ -154,7 +163,10 @@ def prepare_refs(case, refdir):
         differ = state == 'differ'
         p = os.path.join(refdir, st['ref'])
         if a in ('string', 'textfile'):
-            c10_steps.write_bytes(p, (st['actual'] + ('changed\n' if differ else '')).encode('utf-8'))
+            # (a string is compared with what tdda READS from the reference: iso-8859-1 for a file called *.pdf; two files are both
+            #  read by the reference's rule, so there the reference holds the actual file's own bytes)
+            enc = 'iso-8859-1' if a == 'string' and st['ref'].lower().endswith('.pdf') else 'utf-8'
+            c10_steps.write_bytes(p, (st['actual'] + ('changed\n' if differ else '')).encode(enc))
         elif a == 'textfiles':
             for j, txt in enumerate(st['actuals']):
                 c10_steps.write_bytes(os.path.join(refdir, '%d_%s' % (j, st['ref'])), (txt + ('changed\n' if differ and j == 1 else '')).encode('utf-8'))
